@@ -15,13 +15,20 @@ from vlib import common as C
 ID = "C11"
 LEVEL = "proof"
 MANIFEST = {
-    "level_text": "Coq proofs, for all integers (induction over digit lists, no size bound), that the model of "
-                  "bigint.c returns exact results in normal form; the model is tied to the current C source by a "
-                  "correspondence run (value and raw representation) and every C result is also checked against "
-                  "exact integer arithmetic.",
-    "level_note": "Trusted: Coq kernel, extraction (ExtrOcamlBasic), the hand-written model being the code "
-                  "(checked on the generated operand families only), gcc -O0 semantics on x86-64/LP64, libc "
-                  "sprintf/strtol/log. Knuth D: see theorem list (partial if the qhat bound is not proved).",
+    "level_text": "Coq proofs (26 theorems, closed under the global context) that a function-for-function Gallina model "
+                  "of bigint.c, dword.c's xxTimesDouble/xxModDouble and the fiBInt* wrappers of foam_i.c returns exact "
+                  "results in normal form for ALL integers (induction over digit lists, no size bound): sum, difference, "
+                  "product, Knuth's Algorithm D as coded (truncated quotient, remainder with the dividend's sign, "
+                  "a = q*b + r), remainder through all three bintMod branches, gcd, powers, modular powers, shifts, bit "
+                  "length, bit test, comparisons, decimal output, decimal and radix 2..36 input, conversion from/to "
+                  "machine integers.  The model is tied to the CURRENT C source on every run by a correspondence "
+                  "(value, raw representation and decimal text of every result, ~60k operations on the property's "
+                  "operand families in the quick tier) and every C result is also compared with exact integer "
+                  "arithmetic.",
+    "level_note": "Trusted: Coq kernel; extraction (ExtrOcamlBasic) and the OCaml driver; that the hand-written model is "
+                  "the code outside the generated operand families (the correspondence is a test, the theorems are "
+                  "about the model); gcc -O0 on x86-64/LP64; libc sprintf/strtol/log.  One corner of the property is "
+                  "refuted on the real code and reported as a finding: fiBIntPowerMod(a, 0, c) with |c| = 1 returns 1.",
     "technique": "Coq proof of a function-for-function Gallina model of bigint.c + correspondence "
                  "(extracted OCaml vs C harness on current sources) + direct exact-arithmetic oracle",
     "design_ref": "DESIGN.md section 4 / C11",
